@@ -361,8 +361,14 @@ def _check_multi(case):
             d = os.path.join(tmp, "d%d" % i)
             os.makedirs(d)
             rows = [[b[0], b[1], b[2], b[3], float(v), p, 1.0] for b, v, p in zip(bins, vals, probes)]
-            for ext in ("cns", "cnr"):
-                _write_tab(os.path.join(d, f"{sid}.{ext}"), ["chromosome", "start", "end", "gene", "log2", "probes", "weight"], rows)
+            _write_tab(os.path.join(d, f"{sid}.cnr"), ["chromosome", "start", "end", "gene", "log2", "probes", "weight"], rows)
+            # the segment files (export seg takes any bins): in one case in three every sample but the first has no segment
+            # on the first chromosome, so its chromosomes start elsewhere (seeded change C20p numbered the chromosomes of
+            # each sample separately under --enumerate-chroms)
+            first_chrom = case["bins"][0][0]
+            if i >= 1 and gen.pick(case, "seg-subset", 3) == 0 and any(r[0] != first_chrom for r in rows):
+                rows = [r for r in rows if r[0] != first_chrom]
+            _write_tab(os.path.join(d, f"{sid}.cns"), ["chromosome", "start", "end", "gene", "log2", "probes", "weight"], rows)
             fnames.append(os.path.join(d, sid))
             tables.append((sid, rows))
         # ---- SEG (any bins, any ids)
